@@ -298,6 +298,18 @@ def run(ctx: Ctx):
     ctx.add_tlc(rb, "regression witness: with ByteQueue.wait_for inside the framing loop TLC finds the wedge")
     if rb.error_kind != "property":
         raise Machinery("the blocking-framing variant of HsmsClose no longer shows the wedge: model lost its teeth")
+    # ---- Leg M: stop-flag handshakes of the real TCP connection classes (disable vs connect / server thread)
+    for spec, props, cov in (("TcpServerLifecycle", "PROPERTY DisableReturns\nINVARIANT NoLeakedListener\n", ["SBind", "SSelect", "SAccept", "SExit", "D3", "DWait"]),
+                             ("TcpClientLifecycle", "PROPERTY DisableReturns\n", ["CConnect", "CIdle", "D2", "DWait"])):
+        rl = tlc.run(spec, cfg_text=f"SPECIFICATION Spec\nCONSTANTS Fixed = TRUE\n{props}", workdir=wd, what=spec + "_fixed", timeout=900)
+        tlc.require_ok(rl, spec)
+        tlc.require_covered(rl, cov)
+        ctx.add_tlc(rl, f"{spec}: disable() returns, no leaked listener, for every interleaving of the handshake")
+        rlw = tlc.run(spec, cfg_text=f"SPECIFICATION Spec\nCONSTANTS Fixed = FALSE\n{props}", workdir=wd, what=spec + "_orig", timeout=900,
+                      expect_error=True)
+        ctx.add_tlc(rlw, f"{spec}: regression witness (original handshake) -- TLC must refute it")
+        if rlw.error_kind not in ("property", "invariant"):
+            raise Machinery(f"{spec} regression witness no longer fails")
     # ---- Leg R/V
     items = []
     tid = 0
